@@ -197,6 +197,14 @@ def range_cases(draw):
                                 "interpolated_disparity": draw(st.sampled_from(["sgm", "sgm", "mc-cnn"]))}]]
         A, B = draw(st.sampled_from([[1, 4], [2, 3], [-4, -1], [-3, -2]]))
         use_grid = False
+    if draw(st.integers(0, 3)) == 0:
+        # invalid pixels hold a finite value just outside the interval; later steps must not mix it into valid pixels
+        for n_, c_ in pipe:
+            if n_.split(".")[0] == "disparity":
+                c_["invalid_disparity"] = draw(st.sampled_from([B + 1, A - 1, B + 2]))
+        if not any(c_.get("filter_method") == "bilateral" for _, c_ in pipe) and draw(st.booleans()):
+            pipe.append(["filter.inv", {"filter_method": "bilateral", "sigma_space": draw(st.sampled_from([0.7, 1.0])),
+                                        "sigma_color": draw(st.sampled_from([1.0, 2.0, 5.0]))}])
     p = {"pair": pair, "AB": [A, B], "pipeline": pipe}
     if use_grid:
         p["grid"] = draw(grid_spec(pair["H"], pair["W"], A, B))
